@@ -22,6 +22,7 @@ import (
 	"strings"
 	"sync"
 	"syscall"
+	"time"
 )
 
 // Op is one logged mutating file operation.
@@ -187,7 +188,107 @@ func OpenFile(name string, flag int, perm os.FileMode) (*File, error) {
 		return nil, err
 	}
 	vf := &File{f: f, path: name, rel: r, tracked: ok && mutating, appendMode: flag&os.O_APPEND != 0}
+	if flag&(os.O_WRONLY|os.O_RDWR) != 0 {
+		vf.writer, vf.wgen = writerOpened(name)
+	}
 	return vf, nil
+}
+
+// ---------------------------------------------------------------------------
+// write-handle accounting (independent of sessions and op logs; off unless WatchWriters(true))
+//
+// Counts, per cleaned absolute path, the write handles (O_WRONLY / O_RDWR) that are open right now and the maximum seen
+// since the last WatchWriters(true). Used by the C18 check: two write handles on one swamp file at the same time = two
+// instances appending to the same storage file. SetCloseDelay keeps every write handle open a little longer (the delay is
+// taken inside Close, before the descriptor is released) to widen windows; it never fails anything.
+
+var (
+	wmu          sync.Mutex
+	watching     bool
+	openWriters  map[string]int
+	maxWriters   map[string]int
+	pathGen      map[string]int // bumped when the file at a path is removed / replaced: older handles refer to another (unlinked) file
+	closeDelayUs int
+)
+
+// WatchWriters switches the accounting on (and clears it) or off.
+func WatchWriters(on bool) {
+	wmu.Lock()
+	defer wmu.Unlock()
+	watching = on
+	openWriters, maxWriters, pathGen = map[string]int{}, map[string]int{}, map[string]int{}
+	if !on {
+		closeDelayUs = 0
+	}
+}
+
+// SetCloseDelay makes Close of every write handle sleep us microseconds first (0 = off).
+func SetCloseDelay(us int) {
+	wmu.Lock()
+	closeDelayUs = us
+	wmu.Unlock()
+}
+
+// OpenWriters returns the number of write handles currently open on path.
+func OpenWriters(path string) int {
+	wmu.Lock()
+	defer wmu.Unlock()
+	return openWriters[filepath.Clean(path)]
+}
+
+// MaxOpenWriters returns the largest number of simultaneously open write handles seen on path.
+func MaxOpenWriters(path string) int {
+	wmu.Lock()
+	defer wmu.Unlock()
+	return maxWriters[filepath.Clean(path)]
+}
+
+func writerOpened(path string) (bool, int) {
+	wmu.Lock()
+	defer wmu.Unlock()
+	if !watching {
+		return false, 0
+	}
+	p := filepath.Clean(path)
+	openWriters[p]++
+	if openWriters[p] > maxWriters[p] {
+		maxWriters[p] = openWriters[p]
+	}
+	return true, pathGen[p]
+}
+
+// writerPathGone: the file at path was removed or replaced by a rename; handles that are still open on it write to an
+// unlinked file and no longer count for the path.
+func writerPathGone(path string) {
+	wmu.Lock()
+	defer wmu.Unlock()
+	if !watching {
+		return
+	}
+	p := filepath.Clean(path)
+	pathGen[p]++
+	openWriters[p] = 0
+}
+
+func (f *File) writerClosing() {
+	if !f.writer {
+		return
+	}
+	wmu.Lock()
+	d := closeDelayUs
+	wmu.Unlock()
+	if d > 0 {
+		time.Sleep(time.Duration(d) * time.Microsecond)
+	}
+	wmu.Lock()
+	if watching {
+		p := filepath.Clean(f.path)
+		if f.wgen == pathGen[p] && openWriters[p] > 0 {
+			openWriters[p]--
+		}
+	}
+	f.writer = false
+	wmu.Unlock()
 }
 
 func Rename(oldpath, newpath string) error {
@@ -202,7 +303,12 @@ func Rename(oldpath, newpath string) error {
 		}
 	}
 	mu.Unlock()
-	return os.Rename(oldpath, newpath)
+	err := os.Rename(oldpath, newpath)
+	if err == nil {
+		writerPathGone(newpath)
+		writerPathGone(oldpath)
+	}
+	return err
 }
 
 func Remove(name string) error {
@@ -218,7 +324,11 @@ func Remove(name string) error {
 		}
 	}
 	mu.Unlock()
-	return os.Remove(name)
+	err := os.Remove(name)
+	if err == nil {
+		writerPathGone(name)
+	}
+	return err
 }
 
 func RemoveAll(path string) error {
@@ -293,6 +403,8 @@ type File struct {
 	rel        string
 	tracked    bool
 	appendMode bool
+	writer     bool // counted by the write-handle accounting
+	wgen       int  // generation of the path when the handle was opened (see writerPathGone)
 }
 
 func (f *File) Name() string               { return f.f.Name() }
@@ -401,6 +513,7 @@ func (f *File) Close() error {
 		begin(Op{Kind: "close", Path: f.rel}) // close itself is never faulted
 	}
 	mu.Unlock()
+	f.writerClosing()
 	return f.f.Close()
 }
 
